@@ -1,11 +1,16 @@
 #!/bin/sh
-# Build everything the checks need from files on disk only (offline).
+# Build everything the checks need from files on disk only (offline), so that the quick
+# commands only pay for incremental rebuilds of what changed under /repo.
 set -e
 cd "$(dirname "$0")/.."
 export CARGO_NET_OFFLINE=true
 mkdir -p .build work evidence
-( cd harness && cargo build --offline --bins 2>&1 | tail -3 )
-if grep -q 'cli_bin' checks/*.py 2>/dev/null; then
-  cargo build --offline --manifest-path /repo/Cargo.toml --features cli,verif-hooks --bin succinctly --target-dir .build/cli-target 2>&1 | tail -3
-fi
+cd harness
+cargo build --offline --bins 2>&1 | tail -2
+for b in c02h c03 c12 c17; do cargo build --offline --features hooks --bin $b 2>&1 | tail -1; done
+for b in c01 c02 c04; do cargo build --offline --features simd --bin $b 2>&1 | tail -1; done
+for b in c01 c02; do cargo build --offline --features portable-popcount --bin $b 2>&1 | tail -1; done
+cargo build --offline --features scalar-yaml --bin c16 2>&1 | tail -1
+cd ..
+cargo build --offline --manifest-path /repo/Cargo.toml --features cli,verif-hooks --bin succinctly --target-dir .build/cli-target 2>&1 | tail -2
 echo setup done
